@@ -208,18 +208,36 @@ fn step(env: &Env, st: &mut Store, m: &mut MStore, op: &SOp, rep: &mut Report) -
             let mt = model_track(m, src);
             if let (Ok(lt), Ok(mt)) = (lt, mt) {
                 let lr = if *noblock {
+                    env.plan.slow_us.store(400, std::sync::atomic::Ordering::SeqCst);
                     match st.merge_external_noblock(*dest, lt, classes.as_deref(), *hist) {
                         Ok(f) => {
-                            // deferred get: poll readiness, look at statistics meanwhile (no content comparison in between)
-                            let mut spins = 0;
-                            while !f.is_ready() && spins < 1_000_000 {
-                                std::hint::spin_loop();
-                                spins += 1;
+                            // deferred get: while the merge is in flight (its optimize step is slowed down) the store must
+                            // keep looking like the map it is: same number of tracks, destination present under its id
+                            let want: usize = m.tracks.len();
+                            let dest_known = m.tracks.contains_key(dest);
+                            let mut probes = 0;
+                            let mut bad: Option<Value> = None;
+                            while !f.is_ready() && probes < 200_000 {
+                                let n: usize = st.shard_stats().iter().sum();
+                                let present = st.get_store(*dest as usize).contains_key(dest);
+                                if n != want || present != dest_known {
+                                    bad = Some(json!({"stored_during_merge": n, "expected": want, "destination_present": present, "destination_expected": dest_known}));
+                                    break;
+                                }
+                                probes += 1;
                             }
-                            let _ = st.shard_stats();
-                            f.get()
+                            rep.add("probes_during_inflight_merge", probes);
+                            env.plan.slow_us.store(0, std::sync::atomic::Ordering::SeqCst);
+                            let r = f.get();
+                            if let Some(b) = bad {
+                                return Some(("C09/merge_external_noblock/store-inconsistent-while-merge-in-flight".into(), b));
+                            }
+                            r
                         }
-                        Err(e) => Err(e),
+                        Err(e) => {
+                            env.plan.slow_us.store(0, std::sync::atomic::Ordering::SeqCst);
+                            Err(e)
+                        }
                     }
                 } else {
                     st.merge_external(*dest, &lt, classes.as_deref(), *hist)
@@ -318,6 +336,13 @@ fn gen_op(rng: &mut Rng, nids: u64) -> SOp {
         11..=13 => SOp::MergeOwned { dest: id, src: 1 + rng.below(nids), classes: classes(rng), remove: rng.chance(0.5), hist: rng.chance(0.6) },
         14 | 15 => {
             let sid = if rng.chance(0.2) { 1 + rng.below(nids) } else { 100 + rng.below(50) };
+            if rng.chance(0.25) {
+                // a merge over two classes in a fixed order whose SECOND class makes optimize fail: the first class must
+                // be rolled back as well
+                let (c1, c2) = if rng.chance(0.5) { (0u64, 1u64) } else { (1, 2) };
+                let src = Spec { id: sid, compat: 1, obs: vec![(c1, Some(rng.usize(80) as f32 / 10.0), None), (c2, Some(POISON_MERGE as f32), None)] };
+                return SOp::MergeExternal { dest: id, src, classes: Some(vec![c1, c2]), hist: rng.chance(0.6), noblock: rng.chance(0.3) };
+            }
             SOp::MergeExternal { dest: id, src: gen_spec(rng, sid), classes: classes(rng), hist: rng.chance(0.6), noblock: rng.chance(0.4) }
         }
         16 => SOp::Lookup(match rng.usize(3) {
